@@ -137,6 +137,11 @@ func callLog(o *Obl) []loggedCall {
 // runners ----------------------------------------------------------------------
 
 type replayOutcome struct {
+	Gas       uint64   `json:"gas_left"`
+	CalleeBal string   `json:"callee_balance_after"`
+	CallerBal string   `json:"caller_balance_after"`
+	Fired     []string `json:"join_points_fired"`
+	Slot0     string   `json:"callee_slot0_after"`
 	Panicked bool     `json:"panicked"`
 	Panic    string   `json:"panic"`
 	Err      string   `json:"err"`
@@ -229,6 +234,53 @@ func init() {
 				return false, "200 repetitions returned the same order: " + ro.Out
 			})
 		}
+	}
+	replayers["(*vm.EVM).Call"] = func(c *Ctx, prop string, o *Obl) *ReplayRun {
+		// the model says which join point is on the counterexample path; the scenario injects the failure there
+		failAt, post := "", false
+		for _, lc := range callLog(o) {
+			if strings.Contains(lc.Name, "PostContractCall") {
+				post = true
+			}
+			if strings.Contains(lc.Name, "PreContractCall") && failAt == "" {
+				failAt = "preContractCall"
+			}
+		}
+		if post {
+			failAt = "postContractCall"
+		}
+		if failAt == "" && (strings.Contains(o.ID, "jp-") || strings.Contains(o.ID, "reverted") || strings.Contains(o.ID, "forfeits")) {
+			failAt = "preContractCall"
+		}
+		errText := "aspect failure"
+		if strings.Contains(o.ID, "out-of-gas") {
+			errText = "out of gas"
+		}
+		// callee code: SSTORE(0,1); STOP  -- a state effect inside the frame
+		sc := map[string]any{"kind": "evmcall", "code": "600160005500", "input": "", "value": 7, "gas": 100000, "fail_at": failAt, "fail_err": errText}
+		label := o.ID
+		return c.runScenario("EVM scenario: one CALL with value 7 to a contract that stores to slot 0, Aspect provider failing at "+failAt+" with '"+errText+"'", sc, func(ro *replayOutcome) (bool, string) {
+			if ro.Panicked {
+				return isSafetyKind(o), "panic: " + ro.Panic
+			}
+			obs := fmt.Sprintf("err=%q gas_left=%d callee_balance=%s caller_balance=%s slot0=%s fired=%v", ro.Err, ro.Gas, ro.CalleeBal, ro.CallerBal, ro.Slot0, ro.Fired)
+			switch {
+			case strings.Contains(label, "failed-frame-reverted"):
+				bad := ro.Err != "" && (ro.CalleeBal != "0" || ro.CallerBal != "1000" || strings.Trim(ro.Slot0, "0x") != "")
+				return bad, obs + map[bool]string{true: " -- the call failed but its value transfer / storage write survived", false: ""}[bad]
+			case strings.Contains(label, "halt-forfeits-gas"):
+				bad := ro.Err != "" && ro.Err != "execution reverted" && ro.Gas != 0
+				return bad, obs + map[bool]string{true: " -- a non-revert failure handed gas back", false: ""}[bad]
+			case strings.Contains(label, "jp-out-of-gas"):
+				bad := ro.Err != "out of gas" || ro.Gas != 0
+				return bad, obs + map[bool]string{true: " -- join-point out-of-gas did not surface as out-of-gas with no gas returned", false: ""}[bad]
+			case strings.Contains(label, "no-gas-created"):
+				return ro.Gas > 100000, obs
+			case strings.Contains(label, "jp-failure-fails-call"):
+				return ro.Err == "", obs
+			}
+			return false, obs + " (no oracle for this clause)"
+		})
 	}
 	for _, pc := range []string{"aspcontext", "userOpSender", "contextWriter"} {
 		pc := pc
